@@ -193,10 +193,17 @@ def analyse_scenario(item):
     m, c = es.write_mcsync(wd, "MChb", cfg, txt, progs, hb=True)
     rc, out = rv.run_tlc(wd, m, c, workers=4, deque=False, timeout=1500, heap="6g")
     st3 = rv.tlc_stats(out)
-    if st3 is None:
+    if st3 is None and rc == 124 and rv.tlc_progress(out):
+        # the vector-clock product of a three-thread scenario is not exhausted within the time limit: what was explored
+        # (breadth first) held NoRace; reported as a bounded, not an exhaustive, exploration
+        res["hb_rc"], res["hb_states"], res["hb_complete"] = 0, rv.tlc_progress(out)[1], False
+        rc = 0
+    elif st3 is None:
         raise ToolError("TLC (happens-before) failed on scenario %s: %s" % (name, out[-2000:]))
-    res["hb_rc"] = rc
-    res["hb_states"] = st3[1]
+    else:
+        res["hb_rc"] = rc
+        res["hb_states"] = st3[1]
+        res["hb_complete"] = rc == 0
     if rc != 0:
         sch = es.parse_error_trace_schedule(out)
         if es.violated_property(out) != "NoRace" or sch is None:
@@ -374,7 +381,7 @@ def run(prop, tier, seed):
                 "non-trivial = distinct (scenario, schedule) pairs forced on the real code" % len(analysed),
         "exhaustive": False,
         "scenarios": [{"name": a["name"], "distinct": a["distinct"], "depth": a["depth"], "safety_rc": a["safety_rc"],
-                       "liveness_rc": a.get("liveness_rc"), "hb_rc": a.get("hb_rc"), "hb_states": a.get("hb_states"), "schedules": len(a["schedules"]), "cex": [c["prop"] for c in a["cex"]]} for a in analysed],
+                       "liveness_rc": a.get("liveness_rc"), "hb_rc": a.get("hb_rc"), "hb_states": a.get("hb_states"), "hb_complete": a.get("hb_complete"), "schedules": len(a["schedules"]), "cex": [c["prop"] for c in a["cex"]]} for a in analysed],
         "model_counterexamples_replayed": sum(len(a["cex"]) for a in analysed),
         "executions_stuck": stuck_n,
         "events": len(lines),
